@@ -189,4 +189,29 @@ def run(tier, seed, R):
     R.count(('max-undo',), 'max-undo')
     if n_undo != C.MAX_UNDO:
         R.fail("command|max-undo", "after %d commands %d undos were possible (documented bound %d)" % (C.MAX_UNDO + 4, n_undo, C.MAX_UNDO), None)
+    # the bound also holds after commands whose do() raised (they stay logged without the trim): the next successful command restores it
+    session, D = build()
+
+    class Failing(C.Command):
+        kwargs = []
+        label = 'failing'
+
+        def do(self, session):
+            raise RuntimeError("cannot be done")
+
+        def undo(self, session):
+            pass
+    for t in seq[:C.MAX_UNDO + 1]:
+        session.command_stack.do(make_command(t, session, D))
+    for _ in range(3):
+        try:
+            session.command_stack.do(Failing())
+        except RuntimeError:
+            pass
+    session.command_stack.do(make_command(seq[0], session, D))
+    n_hist = len(session.command_stack._command_stack)
+    R.count(('max-undo-after-failures',), 'max-undo')
+    if n_hist > C.MAX_UNDO:
+        R.fail("command|max-undo-after-failed-commands", "after %d commands, 3 commands whose do() raised and one more successful command the history holds %d commands (documented bound %d)"
+               % (C.MAX_UNDO + 1, n_hist, C.MAX_UNDO), None)
     R.samples.append({"command-sequence": "do(sel x>2 default) do(remove d1) undo undo redo redo -> snapshots compared after each undo/redo"})
